@@ -2251,6 +2251,10 @@ impl<'a, S: RowSource> Executor<'a> for DynamicExecutor<'a, S> {
                     let sort_keys = &state.sort_keys;
 
                     while let Some(row) = state.child.next()? {
+                        if heap_size == 0 {
+                            // LIMIT 0: no row can qualify and there is no heap root to compare with
+                            break;
+                        }
                         let owned: Vec<Value<'static>> =
                             row.values.iter().map(clone_value_owned).collect();
 
